@@ -26,6 +26,7 @@ pub fn after_run(w: &mut World, ops: &[Op]) -> Res {
         "C07" => c07(w, ops),
         "C14" => c14(w, ops),
         "C02" => c02(w, ops),
+        "C11" => c11(w),
         _ => Ok(()),
     }
 }
@@ -626,6 +627,25 @@ fn c10_live(w: &mut World, cfg: &RunCfg, items: &Items, truth: &BTreeMap<(String
     Ok(())
 }
 
+/// C11 under storage damage: one damage walk per history (a third of the quick runs); what a peer
+/// obtains by melding from a replica whose storage was damaged is still content-addressed and
+/// byte-identical to the author's copy.
+fn c11(w: &mut World) -> Res {
+    let thorough = std::env::var("VERIF_TIER").map_or(false, |t| t == "thorough");
+    if cfg!(feature = "real") || (!thorough && w.cfg.seed % 3 != 0) {
+        return Ok(());
+    }
+    let cfg = w.cfg.clone();
+    let disks = w.disks();
+    let items = match disks.iter().max_by_key(|d| d.len()) {
+        Some(d) if d.len() >= 3 => d.clone(),
+        _ => return Ok(()),
+    };
+    let truth = true_values(&items);
+    let mut rng = Rng::derive(cfg.seed, 0xC11);
+    c10_walk(w, &cfg, &items, &truth, &mut rng, 0, false)
+}
+
 /// Items arrive, are damaged, deleted and restored while a replica stays open. After each step the
 /// replica refreshes (one time in five: reloads). A block that starts to take effect in a refresh must
 /// be causally complete and intact in the storage as it is at that moment; values are never altered;
@@ -713,6 +733,34 @@ fn c10_walk(w: &mut World, cfg: &RunCfg, items: &Items, truth: &BTreeMap<(String
                 hurt.insert(k);
             } else {
                 continue;
+            }
+        }
+        // a peer melds from the replica while its storage is in this condition: whatever reaches the
+        // peer's storage is named by the SHA-256 of its bytes and equals the author's copy (damage is
+        // never passed on under a good name)
+        if rng.chance(1, 3) {
+            let pd = DiskRef::new(cfg.list_seed ^ 0x13);
+            let ps = pd.store();
+            let src = &m;
+            let res = guard(|| -> Result<(), String> {
+                let p = Melda::new(ps).map_err(|e| e.to_string())?;
+                let _ = p.meld(src);
+                Ok(())
+            });
+            w.bump("enum.damage_walk_melds");
+            if let Err(c) = res {
+                viol!(w, "damaged-meld-returns", format!("damage-walk-meld-{}", c.class()), "a replica opened on {} items, then [{}]: a new replica melding from it does not return: {}", keys.len() - absent.len().min(keys.len()), trail.join("; "), c.text());
+            }
+            for (k, bytes) in pd.items() {
+                let name_ok = match (k.strip_suffix(".pack"), k.strip_suffix(".delta")) {
+                    (Some(n), _) => n == sha_hex(&bytes),
+                    (_, Some(n)) => n.split_once('-').map_or(false, |(_, d)| d == sha_hex(&bytes)),
+                    _ => true,
+                };
+                if !name_ok || items.get(&k).map_or(false, |orig| orig != &bytes) {
+                    viol!(w, "meld-copies-only-intact-items", "damage-walk-meld-spread-altered-item", "a replica opened on {} items, then [{}]: a new replica melds from it and stores {} ({} bytes) which {}", keys.len() - absent.len().min(keys.len()), trail.join("; "), k, bytes.len(),
+                        if name_ok { "differs from the author's copy" } else { "is not named by the SHA-256 of its bytes" });
+                }
             }
         }
         let reload = !last && rng.chance(1, 5);
